@@ -109,6 +109,8 @@ def check_float_case(fb, rec, rnd, rep, stats, N):
         want = np.array([float(exact_poly(ds, t) * sc ** n) for t in ts])
         key = 'float/%s/n=%d/m=%d/N=%d/deg=%d' % (name, n, m, N, len(cs) - 1)
         try:
+            x.flags.writeable = False
+            fx.flags.writeable = False          # the caller's arrays are never written to
             du = fb.fd_derivative(fx, x, n, m)
         except Exception as ex:
             rep.violation('raises:' + key, dict(case=key), 'fd_derivative raised %r' % (ex,))
